@@ -285,7 +285,7 @@ Definition ratio_ok (a b : nat) : bool :=
 
 Lemma ratio_sweep :
   forallb (fun b => forallb (fun a => ratio_ok a b) (seq 0 (S b))) (seq 1 512) = true.
-Proof. vm_compute. reflexivity. Qed.
+Proof. vm_cast_no_check (eq_refl true). Qed.   (* one evaluation, by the kernel's VM at Qed *)
 
 Lemma ratio_ok_all a b : (1 <= b <= 512)%nat -> (a <= b)%nat -> ratio_ok a b = true.
 Proof.
